@@ -47,6 +47,8 @@ pub struct NextRun {
 pub type NextFn = Box<dyn FnMut() -> Option<NextRun>>;
 
 pub struct SimScheduler {
+  bt_debug: bool,
+  bt_seed: u64,
   /// multi-run session driver (None = exactly one run, configured at construction)
   next: Option<NextFn>,
   rng: Rng,
@@ -77,6 +79,8 @@ impl SimScheduler {
     }
     shared.borrow_mut().trace_hash = FNV_OFFSET;
     SimScheduler {
+      bt_debug: false,
+      bt_seed: 0,
       next: None,
       rng,
       data,
@@ -117,6 +121,8 @@ impl SimScheduler {
       }
     }
     self.guide = n.guide;
+    self.bt_debug = std::env::var("VERIF_STEP_BT").ok().map(|v| v == "all" || v.parse::<u64>().ok() == Some(n.seed)).unwrap_or(false);
+    self.bt_seed = n.seed;
     let mut st = self.shared.borrow_mut();
     *st = SchedStats::default();
     st.trace_hash = FNV_OFFSET;
@@ -157,6 +163,11 @@ impl Scheduler for SimScheduler {
 
   fn next_task(&mut self, runnable: &[&Task], current: Option<TaskId>, is_yielding: bool) -> Option<TaskId> {
     let step;
+    if self.bt_debug {
+      let bt = format!("{}", std::backtrace::Backtrace::force_capture());
+      let frames: Vec<&str> = bt.lines().filter(|l| l.contains(" at ") && (l.contains("/repo/") || l.contains("fibsim/src") || l.contains("rt/src") || l.contains("shims/"))).take(6).collect();
+      println!("STEPBT seed={} current={:?} runnable={} {}", self.bt_seed, current, runnable.len(), frames.join(" <- ").replace("             at ", ""));
+    }
     {
       let mut st = self.shared.borrow_mut();
       st.steps += 1;
